@@ -17,7 +17,15 @@ RULE = ("the C01 case set (complete small layer + seeded-random documents x guid
         "exception type is checked), plus the keyword-parameter layer: every keyword, plain and inverted, x 46 parameter texts "
         "(bare / quoted / escaped blanks, empty quotes, a lone `&`, lone and unbalanced quotes, commas without values, padded names) "
         "x documents with blank and empty keys and values, anchors and nulls x 10 ways of reaching them, alone and followed by `*`, "
-        "asked through get_nodes(mustexist=True), exists() and get_nodes(mustexist=False); the same items inside 3 000 guided paths.  Correspondence: the error class equals the Lean model's.  "
+        "asked through get_nodes(mustexist=True), exists() and get_nodes(mustexist=False); the same items inside 3 000 guided paths; "
+        "12 000 (200 000) collector SEQUENCES: hashes of scalars / lists of scalars / further hashes (depth <= 4), 1-3 operands drawn from the "
+        "document (a scalar leaf, a real list of scalars below the root as itself / member by member / one element, a hash's members) joined "
+        "by + (mostly) - &, FOLLOWED by an index into the collected result / min / max / unique / distinct / a search and then parent(n) "
+        "(n absent, 0..5) / name() / has_child (an operand selecting a list of scalars counts as selecting scalars: the collector expands it); "
+        "the complete Unicode-number key layer: 32 key texts of superscripts, subscripts, circled / parenthesised digits, fractions, Roman / "
+        "CJK numerals, non-ASCII decimal digits, signs and mixes x Hashes lacking / owning the key, with integer keys, empty, an "
+        "Array-of-Hashes (pass-through), a list, a set x direct / below a key / `*` / `**` / a slice, alone and followed by a key, "
+        "through required / exists / optional queries.  Correspondence: the error class equals the Lean model's.  "
         "distinct_nontrivial = distinct (document, path) whose required query returns at least one node.")
 
 
@@ -69,6 +77,99 @@ def keyword_param_docs():
     ]
 
 
+def scalar_tree(rng, depth=0):
+    """A hash of scalars, lists of scalars and further such hashes (depth <= 3), as canonical JSON."""
+    S = [{"k": "int", "v": "1"}, {"k": "int", "v": "2"}, {"k": "int", "v": "10"}, {"k": "str", "v": "a"}, {"k": "str", "v": "b"},
+         {"k": "float", "m": "15", "e": -1}, {"k": "null"}, {"k": "bool", "v": True}]
+    es = []
+    for k in rng.sample(["a", "b", "c", "x", "y", "z"], rng.randint(1, 4)):
+        r = rng.random()
+        if depth < 3 and r < 0.4:
+            v = scalar_tree(rng, depth + 1)
+        elif r < 0.75:
+            v = {"k": "seq", "i": [dict(rng.choice(S)) for _ in range(rng.randint(0, 3))]}
+        else:
+            v = dict(rng.choice(S))
+        es.append([k, v])
+    return {"k": "map", "e": es}
+
+
+def tree_operands(j, pre, out):
+    """Operand paths into a scalar_tree: every scalar leaf `p`, every list of scalars as itself `p`, by its members `p.*`
+    and by one element `p[i]`, every hash by its members `p.*`."""
+    for k, v in j["e"]:
+        p = (pre + "." if pre else "") + k
+        if v["k"] == "map":
+            out.append(p + ".*")
+            tree_operands(v, p, out)
+        elif v["k"] == "seq":
+            out += [p, p, p + ".*"] + (["%s[%d]" % (p, len(v["i"]) - 1)] if v["i"] else [])
+        else:
+            out.append(p)
+    return out
+
+
+SEQ_TAILS = ["[parent(%s)]", "[%d][parent(%s)]", "[%d][parent(%s)]", "[%d][name()]", "[min()][parent(%s)]", "[max()][parent(%s)]",
+             "[!min()][parent(%s)]", "[unique()][parent(%s)]", "[%d][parent(%s)][name()]", "[min()][name()]", "[%d][parent(%s)][parent(%s)]",
+             "[%d:%d][parent(%s)]", "[%d][has_child(a)]", "[distinct()][%d][parent(%s)]", "[.>0][parent(%s)]", "[%d].*", "[%d][unique()]"]
+
+
+def collector_seq_cases(rng, n):
+    """Collector, THEN a short sequence of segments that work on what it gathered: an index into the collected result, a
+    keyword selecting among it (min / max / unique / distinct, a search), then parent(n) (n absent, 0..5: fewer, as many
+    and more levels than the gathered member has ancestors) / name() / has_child.  Operands are drawn from the document:
+    scalar leaves at depth 1..4 and real lists of scalars below the root (gathered as themselves, member by member, by
+    one element), joined by + (mostly), - or &."""
+    out = []
+    for _ in range(n):
+        d = scalar_tree(rng)
+        ops = tree_operands(d, "", [])
+        operands = [rng.choice(ops) for _ in range(rng.randint(1, 3))]
+        text = "(%s)" % operands[0]
+        for o in operands[1:]:
+            text += rng.choice(["+", "+", "+", "+", "-", "&"]) + "(%s)" % o
+        t = rng.choice(SEQ_TAILS)
+        args = []
+        for m in __import__("re").findall(r"%[ds]", t):
+            args.append(rng.randint(-2, 6) if m == "%d" else rng.choice(["", "0", "1", "2", "3", "4", "5"]))
+        out.append((d, operands, text + t % tuple(args)))
+    return out
+
+
+# characters str.isdigit() / str.isnumeric() / str.isdecimal() disagree about, and text int() accepts beyond ASCII digits
+UNICODE_NUMBER_KEYS = ["\u00b2", "\u00b9", "\u00b3", "1\u00b2", "-\u00b9", "\u00b23", "\u2460", "\u2469", "\u2474", "\u2080", "\u2075\u2076",
+                       "\u00bd", "\u2162", "\u3007", "\u4e09", "\u0663", "-\u0663", "\u0664\u0662", "\uff13", "\u0967\u0968", "1\u0663", "\u0be7",
+                       "\u0f33", "\u1369", "\U0001d7d8", "+3", "3_0", "-", "--1", "1e1", "0x1", "\u20783"]
+
+
+def unicode_key_cases():
+    """Complete: key segments made of Unicode number characters (superscripts, subscripts, circled / parenthesised digits,
+    fractions, Roman numerals, CJK numerals, non-ASCII decimal digits, mixed with ASCII digits and a sign) x Hashes that
+    lack the key (with string keys, integer keys - also the integer a decimal-digit text denotes -, an empty Hash), own it,
+    an Array-of-Hashes, a Hash of Hashes, a list x reached directly, below a key, through the Array-of-Hashes pass-through,
+    below `*` and `**`, followed by nothing / a key."""
+    I = lambda v: {"k": "int", "v": str(v)}     # noqa: E731
+    keys = [k.encode("ascii").decode("unicode_escape") if "\\" in repr(k) else k for k in UNICODE_NUMBER_KEYS]
+    out = []
+    for key in keys:
+        plain = {"k": "map", "e": [["a", I(1)], [2, I(4)], [3, I(9)], ["42", I(0)]]}
+        own = {"k": "map", "e": [["a", I(1)], [key, I(8)], [3, I(9)]]}
+        aoh = {"k": "seq", "i": [plain, {"k": "null"}, own, {"k": "map", "e": []}]}
+        docs = [
+            (plain, [[]]), (own, [[]]), ({"k": "map", "e": []}, [[]]),
+            ({"k": "map", "e": [["powers", plain], ["own", own], ["list", aoh], ["n", {"k": "seq", "i": [I(1), I(2), I(3), I(4)]}]]},
+             [["powers"], ["own"], ["list"], ["*"], ["**"], ["n"], ["list", "[0]"], ["list", "*"]]),
+            (aoh, [[], ["*"], ["**"], ["[0:3]"]]),
+            ({"k": "seq", "i": [I(1), I(2), I(3), I(4)]}, [[]]),
+            ({"k": "set", "m": ["a", 3]}, [[]]),
+        ]
+        for d, pres in docs:
+            for pre in pres:
+                for tail in ([], ["a"]):
+                    out.append((d, pre + [key] + tail))
+    return out
+
+
 def run(chk: core.Check):
     core.use_repo()
     opts = {"c02": False, "slash": True}
@@ -98,6 +199,28 @@ def run(chk: core.Check):
         chk.out_of_model += stats["n"]
         for k, v in stats.items():
             chk.count("collector:" + k, v)
+        for sig, w, case in viol:
+            chk.violation(sig, w, case)
+    # collector, then segments working on the collected result (index, min/max/unique, parent(n), name()); operands may be
+    # real lists of scalars below the root
+    cs = collector_seq_cases(_r.Random(chk.seed * 7 + 151), 12000 if chk.tier == "quick" else 200000)
+    cs = c01.subsample(chk, cs)
+    for stats, viol in core.pmap(ev.collector_chunk, [(c, dict(opts, expand_lists=True)) for c in core.chunked(cs, 64)]):
+        chk.evaluations += stats["n"]
+        chk.out_of_model += stats["n"]
+        for k, v in stats.items():
+            chk.count("collector-sequence:" + k, v)
+        for sig, w, case in viol:
+            chk.violation(sig, w, case)
+    # key segments of Unicode number characters against Hashes (the string / integer key retry of _get_nodes_by_key)
+    uk = c01.subsample(chk, unicode_key_cases())
+    chk.extra_cov["unicode_number_key_layer"] = "%d (document, path) cases x required / exists / optional" % len(uk)
+    for stats, viol in core.pmap(ev.keyword_chunk, [(c, dict(opts, kw_opt=True, what="key segment of Unicode number characters"))
+                                                    for c in core.chunked(uk, 64)]):
+        chk.evaluations += stats["n"]
+        chk.out_of_model += stats["n"]
+        for k, v in stats.items():
+            chk.count("unicode-number-keys:" + k, v)
         for sig, w, case in viol:
             chk.violation(sig, w, case)
     # keyword segments: modelled by C13; here only the exception type of the real queries is checked
